@@ -192,6 +192,52 @@ def run(ck, F, tier):
             ok = op_ok and rhs_ok and in_ok_arm and in_loop and c_ok
             why = "%s += %s under %s [op %s, source %s, Ok arm %s, condition %s]" % (".".join(fp), repr(rhs)[:60], cond or "every result", op_ok, rhs_ok, in_ok_arm, c_ok)
         ck.inst("G2", "update:" + ".".join(fp), ok, evs[0].site if evs else rb.span, why)
+    # the same accounting, evaluated: for every kind of received result the net change of every counter is the documented one
+    from ..transformer import Grid as _Grid
+    from ..symx import NotEvaluable as _NE
+    from itertools import product as _product
+    okd, whyd, npts = True, "", 0
+    try:
+        for fe, fd, be, bchp, outcome in _product((False, True), (False, True), (0, 2, 5), ("None", ("Some", "BCH")), ("result", "worker-gone", "disconnected")):
+            if outcome != "result" and (fe or fd or be or bchp != "None"):
+                continue
+            itn = 3
+            res = {"result": ("Ok", ("Ok", "RESULT")), "worker-gone": ("Ok", ("Err", ())), "disconnected": ("Err", "RecvError")}[outcome]
+            hooks = {"recv": lambda *a_, res=res: res, "errors_for_termination": lambda *a_: 0, "new": lambda *a_: "CS",
+                     ".bch": lambda x_, bchp=bchp: bchp if x_ == "CS" else ("Some", "SELFBCH"), ".ldpc": lambda x_: "CS.ldpc",
+                     ".frame_error": lambda x_, fe=fe: fe, ".false_decode": lambda x_, fd=fd: fd, ".iterations": lambda x_, itn=itn: itn,
+                     ".bit_errors": lambda x_, be=be: be if x_ == "RESULT" else 0, "from": lambda x_: int(x_) if isinstance(x_, bool) else x_,
+                     "into": lambda x_: int(x_) if isinstance(x_, bool) else x_, "channel": lambda *a_: ("TX", "RX")}
+            g = _Grid({"self.max_frame_errors": 10, "self.bch_max_errors": 2, "self.max_iterations": 50}, hooks)
+            deltas = {}
+            for fp_, evs_ in updates.items():
+                for e_ in evs_:
+                    if not g.holds(e_.guards):
+                        continue
+                    if not (e_.node.get("k") == "assignop" and e_.node.get("op", "").startswith("Add")):
+                        raise _NE("store to %s is not an accumulation" % ".".join(fp_))
+                    v_ = g.value(e_.args[1])
+                    deltas[fp_] = deltas.get(fp_, 0) + (int(v_) if isinstance(v_, bool) else v_)
+            want = {}
+            if outcome == "result":
+                want = {("ldpc", "bit_errors"): be, ("ldpc", "frame_errors"): int(fe), ("false_decodes",): int(fd), ("total_iterations",): itn,
+                        ("ldpc", "correct_iterations"): 0 if fe else itn, ("num_frames",): 1}
+                if bchp != "None":
+                    if be > 2:
+                        want.update({("bch", "bit_errors"): be, ("bch", "frame_errors"): 1})
+                    else:
+                        want[("bch", "correct_iterations")] = itn
+            npts += 1
+            nz = lambda d: {k: v for k, v in d.items() if v}
+            if nz(deltas) != nz(want):
+                okd = False
+                whyd = " ; for %s (frame_error %s, false_decode %s, bit_errors %d, outer code %s) the counters change by %r, required %r" % (
+                    outcome, fe, fd, be, "present" if bchp != "None" else "absent", {".".join(k): v for k, v in nz(deltas).items()}, {".".join(k): v for k, v in nz(want).items()})
+                break
+    except (_NE, TypeError) as ex:
+        okd, whyd = False, " ; not evaluable: %s" % ex
+    ck.inst("G2", "per-result-deltas", okd, rb.span, ("every received result changes the nine counters by exactly the documented amounts (threshold bit_errors > bch_max_errors for "
+            "the outer code); a vanished worker or a closed channel changes none [%d cases]" % npts) + whyd[:500])
     # (after the per-counter instances: a missing update is a verdict about that counter, not an unreadable shape)
     ck.floor("G2", "accumulator update sites", sum(len(v) for v in updates.values()), 9)
     others = [fp for fp in updates if fp not in expect]
